@@ -65,6 +65,8 @@ def gen_cases(rng, n):
         cases.append({"kind": kind, "abc": [fhex(a), fhex(b), fhex(c)], "x0": fhex(x0),
                       "bounds": [fhex(v) for v in bounds] if bounds else None, "lr": fhex(lr), "max_iter": max_iter,
                       "tol": fhex(tol), "mom": fhex(mom), "bounds_kind": bk})
+        if bounds and rng.random() < 0.25:
+            cases[-1]["bounds_list"] = True      # the interval handed over as a two-element list, not a tuple
     return cases
 
 
@@ -128,6 +130,8 @@ def gen_min_cases(rng, n):
                     "bounds": bounds, "lr": rng.choice([0.05, 0.1]), "max_iter": rng.choice([60, 400]), "tol": rng.choice([1e-4, 1e-3]),
                     "bounds_kind": "none" if bounds is None else "zero-end" if 0 in [v for v in bounds if v is not None] else "one-sided" if None in bounds else "two-sided",
                     "reuse": rng.random() < 0.4})
+        if bounds is not None and rng.random() < 0.3:
+            out[-1]["bounds_list"] = True      # the interval handed over as a list, not a tuple
         if rng.random() < 0.3:
             # the parameter being minimised over need not be called x: a name spelled like a mathematical constant in a case the
             # expression language does NOT treat as one (e, E, pi, Pi, infinity) is an ordinary name, like lamda or N_1
